@@ -148,7 +148,7 @@ func queryHeightDefaults(r *Run, rule string) {
 		found := false
 		Instrs(f, func(in ssa.Instruction) {
 			st, ok := in.(*ssa.Store)
-			if !ok || !strings.HasSuffix(P.TermAt(st.Addr, st).String(), "req.Height") {
+			if !ok || !strings.HasSuffix(P.TermAt(st.Addr, st).String(), "RequestQuery.Height") {
 				return
 			}
 			found = true
